@@ -209,6 +209,8 @@ func c01vectors(k int, f func(c01factors)) {
 	rec(0, k, c01factors{})
 }
 
+var c01identKey string
+
 // staticOracle is C01's verdict on one accepted output.
 func c01static(w *W, c *C, id string, src string, local bool, stub bool, fm map[string]string) *GenInfo {
 	extra := map[string]string{}
@@ -226,6 +228,10 @@ func c01static(w *W, c *C, id string, src string, local bool, stub bool, fm map[
 	}
 	if !gi.GofmtStable {
 		c.Violation(mode+"not-gofmt-stable", "generated file is not gofmt-stable ("+id+")", fm, nil)
+	}
+	if len(gi.Errs) > 0 && c01identKey != "" {
+		c.Violation(c01identKey, "a configured identifier collides with a name the generated code uses itself ("+id+"):\n"+strings.Join(gi.Errs, "\n"), fm, nil)
+		return gi
 	}
 	if len(gi.Errs) > 0 {
 		c.Violation(mode+"typecheck:"+compilerKey(gi.Errs[0]), "generated file does not type-check ("+id+"):\n"+strings.Join(gi.Errs, "\n"), fm, nil)
@@ -338,6 +344,55 @@ func init() {
 						place(cfg, pos, sh.v)
 						evalCfg(c, id, cfg, []File{{"c.yaml", cfg.YAML()}}, false, false)
 					})
+				}
+			}
+			// identifier stress: legal Go identifiers that coincide with names the templates use themselves, in every
+			// identifier position; whatever is accepted must still compile
+			stress := []string{"c", "s", "r", "p", "err", "ctx", "result", "chunk", "chunks", "first", "key", "def", "val", "ok", "res", "params", "provider", "args",
+				"rootGontainer", "interface_", "nilContainer", "implements", "interfaceType", "dependencyService", "dependencyValue", "dependencyTag", "dependencyProvider",
+				"newService", "concatenateChunks", "paramTodo", "getEnv", "getEnvInt", "getParam", "callProvider",
+				"_getEnv", "_getEnvInt", "_paramTodo", "_concatenateChunks", "_callProvider", "_", "Gontainer", "NewGontainer", "init", "main", "Container", "New", "gen", "Root", "i0_fmt", "i1_pk"}
+			idPositions := []struct {
+				id  string
+				set func(c *Cfg, x string)
+			}{
+				{"getter", func(c *Cfg, x string) { c.Svc("sut").Getter = P(x); c.Svc("sut").MustGetter = P(true) }},
+				{"getter-typed", func(c *Cfg, x string) { c.Svc("sut").Getter = P(x); c.Svc("sut").Type = P("*pk.Obj") }},
+				{"container_type", func(c *Cfg, x string) { c.Meta.ContainerType = P(x); c.Svc("sut").Getter = P("GetSut") }},
+				{"container_constructor", func(c *Cfg, x string) { c.Meta.ContainerConstructor = P(x) }},
+				{"pkg", func(c *Cfg, x string) { c.Meta.Pkg = P(x) }},
+				{"function", func(c *Cfg, x string) {
+					c.Meta.Functions = append(c.Meta.Functions, KV{x, "pk.FnStr"})
+					c.Params = append(c.Params, Param{"pz", "%" + x + "()%"})
+				}},
+				{"alias", func(c *Cfg, x string) {
+					c.Meta.Imports = append(c.Meta.Imports, KV{x, "fx/ab"})
+					c.Services = append(c.Services, Service{Name: "viaAlias", Constructor: P(x + ".New")})
+				}},
+			}
+			for _, ip := range idPositions {
+				for _, x := range stress {
+					for stub := 0; stub < 2; stub++ {
+						ip, x, stub := ip, x, stub
+						id := fmt.Sprintf("ident/%s/%s/stub=%d", ip.id, x, stub)
+						w.Case(id, func(c *C) {
+							cfg := &Cfg{Meta: stdMeta(), Params: []Param{{"pInt", 7}, {"pStr", "a%pInt%b"}, {"pEnv", `%env("X", "d")%%envInt("Y", 1)%`}}}
+							cfg.Services = []Service{{Name: "sut", Constructor: P("pk.New"), Args: []any{"%pStr%", "!tagged tg"}, Tags: []Tag{{Name: "tg2"}}}, {Name: "td", Todo: P(true)}}
+							cfg.Decorators = []Decorator{{Tag: "tg2", Decorator: "pk2.Dec1", Args: []any{"%pEnv%"}}}
+							ip.set(cfg, x)
+							// precondition of the statement: distinct identifiers (incl. the documented defaults), and not the
+							// names Go itself reserves for functions (init, main) or the blank identifier
+							if x == "init" || x == "main" || x == "_" {
+								return
+							}
+							if (ip.id == "container_constructor" && x == "Gontainer") || (ip.id == "container_type" && x == "NewGontainer") {
+								return
+							}
+							c01identKey = fmt.Sprintf("identifier-collision:%s=%s", ip.id, x)
+							evalCfg(c, id, cfg, []File{{"c.yaml", cfg.YAML()}}, false, stub == 1)
+							c01identKey = ""
+						})
+					}
 				}
 			}
 			// really compiled covering subset: all single departures (thorough: pairs), normal and stub
